@@ -2,7 +2,9 @@
  *
  * Scenario = load keys and CAs from PEM, create sessions (client with expected name), handshake
  * (full / resumed by session id, TLS 1.2 ticket, TLS 1.3 ticket or PSK / client-auth, RSA and ECDSA
- * identities, per version; stale ticket replaced after a server ticket-key rotation), data both ways,
+ * identities, per version; stale ticket replaced after a server ticket-key rotation; caller-supplied
+ * ClientHello extensions incl. HelloVerifyRequest / HelloRetryRequest; x25519 shares; psk_ke; minted
+ * certificates with otherName SANs; a ticket re-used for another server name), data both ways,
  * closure, delete everything (sessions, session id, keys).
  * A counting pass numbers every allocation made inside library API calls (link-time
  * --wrap=malloc,calloc,realloc; the harness's own allocations are exempt).  Then one fork()ed run
@@ -16,9 +18,24 @@
 
 extern int mx_fp_armed; extern long mx_fp_count, mx_fp_failat[4], mx_fp_failed; extern uint64_t *mx_fp_sites; extern long mx_fp_sites_cap;
 
-typedef struct { const char *name; int ver; uint16_t suite; int clientAuth; int rounds; int ticket; int bad; int rotate; } scn_t;
-enum { BAD_NONE = 0, BAD_UNTRUSTED_CA, BAD_WRONG_KEY, BAD_WRONG_NAME };
-static const char *badname[] = { "good", "untrusted-ca", "wrong-key", "wrong-name" };
+typedef struct { const char *name; int ver; uint16_t suite; int clientAuth; int rounds; int ticket; int bad; int rotate;
+                 int ext;      /* caller-supplied ClientHello extensions: bit 0 = server_name (matrixSslCreateSNIext), bit 1 = an unknown extension type
+                                  (TLS <= 1.2 only: the TLS 1.3 client refuses user extensions other than server_name and ALPN), bit 2 = ALPN */
+                 int grp;      /* TLS 1.3 key exchange groups: 1 = client offers an x25519 share (server accepts it), 2 = client offers x25519 but the server only
+                                  supports secp256r1 -> HelloRetryRequest, second ClientHello (user extensions re-sent, cookie echoed) */
+                 int win;      /* failpoint armed only from the moment the client has completed the handshake of round 0 (post-handshake NewSessionTicket
+                                  processing, closure, next connection, teardown); quick tier enumerates every ordinal of such a window */
+                 int pskke;    /* TLS 1.3 external PSK on both sides; the harness rewrites the first ClientHello on the wire so that it offers psk_ke only
+                                  (psk_key_exchange_modes edited, PSK binder recomputed with the library's HKDF) -> the server takes the PSK-only key
+                                  schedule; the client's transcript differs, so the handshake must not complete (BAD_TAMPERED) */
+                 int pki;      /* 1 = credentials minted for this check (harness/c19pki): CA and leaf carry subjectAltName otherName entries */
+} scn_t;
+enum { BAD_NONE = 0, BAD_UNTRUSTED_CA, BAD_WRONG_KEY, BAD_WRONG_NAME,
+       BAD_RENAMED,   /* round 0 is a good connection; round >= 1 reuses the session id for a DIFFERENT server name and must not complete */
+       BAD_TAMPERED };  /* a handshake message was modified in transit: the client must not complete */
+static const char *badname[] = { "good", "untrusted-ca", "wrong-key", "wrong-name", "renamed-resume", "tampered-hello" };
+static const unsigned char c19_psk13[32] = "c19 external psk for tls 1.3 !!"; static const unsigned char c19_psk13_id[] = "c19-psk-identity";
+#define C19_PKI "/verif/harness/c19pki/"   /* minted with openssl (ca.cnf there): RSA-2048 CA + leaf for localhost, valid 2020..2040 */
 static const scn_t scns[] = {
     { "tls12-ecdhe-rsa-gcm", MX_TLS12, 0xc02f, 0, 1, 0, BAD_NONE },
     { "tls13-aes128gcm-clientauth", MX_TLS13, 0x1301, 1, 1, 0, BAD_NONE },
@@ -52,10 +69,28 @@ static const scn_t scns[] = {
      * including the session id, is deleted */
     { "tls12-ticket-rotated-key", MX_TLS12, 0xc02f, 0, 2, 1, BAD_NONE, 1 },
     { "dtls12-ticket-rotated-key", MX_DTLS12, 0x009c, 0, 2, 1, BAD_NONE, 1 },
+    /* caller-supplied ClientHello extensions (server_name + an unknown type, or server_name + ALPN in TLS 1.3): copied into the session, written, re-sent after
+     * HelloVerifyRequest (DTLS) and HelloRetryRequest (TLS 1.3) */
+    { "tls12-userext", MX_TLS12, 0xc02f, 0, 1, 0, BAD_NONE, .ext = 3 },
+    { "dtls12-userext", MX_DTLS12, 0xc027, 0, 1, 0, BAD_NONE, .ext = 3 },
+    { "tls13-userext", MX_TLS13, 0x1301, 0, 1, 0, BAD_NONE, .ext = 5 },
+    { "tls13-userext-hrr", MX_TLS13, 0x1302, 0, 1, 0, BAD_NONE, .ext = 5, .grp = 2 },
+    /* x25519 key shares (TLS 1.3), with ticket resumption over x25519 in round 2 */
+    { "tls13-x25519-ticket", MX_TLS13, 0x1303, 0, 2, 1, BAD_NONE, .grp = 1 },
+    /* certificates whose subjectAltName has otherName entries (CA file, server and client identity) */
+    { "tls12-othername-pki-clientauth", MX_TLS12, 0xc030, 1, 1, 0, BAD_NONE, .pki = 1 },
+    { "tls13-othername-pki", MX_TLS13, 0x1301, 0, 1, 0, BAD_NONE, .pki = 1 },
+    /* TLS 1.3 ticket bound to a server name: round 0 (SNI + expected name "localhost") obtains a ticket, round 1 reuses the session id
+     * for "other.example.com" and must never complete (a PSK handshake carries no certificate).  Once with every allocation of the
+     * whole scenario as a failure point, once with the failpoint armed only after round 0's handshake (every ordinal in quick) */
+    /* PSK-only key exchange (psk_ke) on the server */
+    { "tls13-extpsk-psk-ke-only", MX_TLS13, 0x1301, 0, 1, 0, BAD_TAMPERED, .pskke = 1 },
+    { "tls13-ticket-sni-renamed", MX_TLS13, 0x1301, 0, 2, 1, BAD_RENAMED, .ext = 1 },
+    { "tls13-ticket-sni-renamed-nstwindow", MX_TLS13, 0x1301, 0, 2, 1, BAD_RENAMED, .ext = 1, .win = 1 },
 };
 #define NSCN ((int) (sizeof scns / sizeof scns[0]))
 
-typedef struct { int completedC, completedS, dataOk, cleanFail, stage; } outcome_t;
+typedef struct { int completedC, completedS, dataOk, cleanFail, stage, completedC2 /* client completions in rounds >= 1 */; } outcome_t;
 static const scn_t *cur; static char curdesc[200];
 static void report(const char *clause, const char *fmt, ...)
 {
@@ -67,6 +102,65 @@ static void report(const char *clause, const char *fmt, ...)
 #define LIB(stmt) do { mx_in_lib++; stmt; mx_in_lib--; } while (0)
 static int32 cb_strict(ssl_t *ssl, psX509Cert_t *c, int32 alert) { (void) ssl; (void) c; return alert; }
 
+/* what a must-fail scenario must never show on the verifying side */
+static int forbidden_completion(const scn_t *s, const outcome_t *o) { return s->bad == BAD_RENAMED ? o->completedC2 : o->completedC; }
+
+static int c19_arm_to;
+static void c19_cut(void *ctx, mx_conn *k, int dir) { (void) ctx; (void) dir; if (k->c.hsDone && !mx_fp_armed) mx_fp_armed = c19_arm_to; }
+
+/* rewrite the ClientHello waiting in the client->server queue: psk_key_exchange_modes := psk_ke only, then recompute the binder of the
+ * (single, external, SHA-256) PSK so that the server accepts the PSK.  Harness-side crypto runs outside LIB(): never counted or faulted. */
+static void c19_force_psk_ke(mx_conn *k)
+{
+    mx_conn_collect(k); unsigned char *b = k->q[0]; int n = k->qlen[0];
+    if (n < 5 + 4 + 34 + 4 || b[0] != 22 || b[5] != 1) return;
+    unsigned char *hs = b + 5; int hslen = (hs[1] << 16) | (hs[2] << 8) | hs[3]; if (5 + 4 + hslen > n) return;
+    unsigned char *p = hs + 4 + 2 + 32; p += 1 + p[0]; p += 2 + ((p[0] << 8) | p[1]); p += 1 + p[0];
+    int el = (p[0] << 8) | p[1]; p += 2; unsigned char *ee = p + el, *binders = NULL; if (ee > hs + 4 + hslen) return;
+    while (p + 4 <= ee) { int t = (p[0] << 8) | p[1], l = (p[2] << 8) | p[3]; unsigned char *d = p + 4; if (d + l > ee) return;
+        if (t == 45) for (int i = 1; i <= d[0] && i < l; i++) d[i] = 0;                 /* every offered mode becomes psk_ke(0) */
+        if (t == 41) binders = d + 2 + ((d[0] << 8) | d[1]);
+        p = d + l; }
+    if (!binders || binders + 3 + 32 > ee || binders[2] != 32) return;
+    unsigned char zero[32] = { 0 }, early[64], bkey[32], fkey[32], hempty[32], htr[32]; psSize_t elen = 0; psSha256_t md;
+    psSha256Init(&md); psSha256Final(&md, hempty);
+    psSha256Init(&md); psSha256Update(&md, hs, (uint32) (binders - hs)); psSha256Final(&md, htr);
+    if (psHkdfExtract(HMAC_SHA256, zero, 32, c19_psk13, 32, early, &elen) < 0) return;
+    if (psHkdfExpandLabel(NULL, HMAC_SHA256, early, 32, "ext binder", 10, hempty, 32, 32, bkey) < 0) return;
+    if (psHkdfExpandLabel(NULL, HMAC_SHA256, bkey, 32, "finished", 8, NULL, 0, 32, fkey) < 0) return;
+    unsigned char hk[64]; psSize_t hkl = 0; psHmacSha256(fkey, 32, htr, 32, binders + 3, hk, &hkl);
+}
+
+/* like mx_conn_open, plus caller-supplied hello extensions and key exchange group options */
+static int c19_open(mx_conn *k, const mx_cfg *cfg, sslSessionId_t *sid, const scn_t *s, const char *name)
+{
+    if (!s->ext && !s->grp) return mx_conn_open(k, cfg, sid);
+    memset(k, 0, sizeof *k); k->cfg = *cfg; k->dtls = MX_IS_DTLS(cfg->ver);
+    sslSessOpts_t so, co; mx_opts(&so, cfg, MX_SERVER); mx_opts(&co, cfg, MX_CLIENT);
+    if (s->grp) { uint16_t cg[2] = { namedgroup_x25519, namedgroup_secp256r1 }, sg[1] = { namedgroup_secp256r1 };
+        matrixSslSessOptsSetKeyExGroups(&co, cg, 2, 1); if (s->grp == 2) matrixSslSessOptsSetKeyExGroups(&so, sg, 1, 1); }
+    int rc; mx_ep *e = &k->s; e->role = MX_SERVER; e->ver = cfg->ver; e->id = 1; e->name = "S";
+    mx_actor = 1; LIB(rc = matrixSslNewServerSession(&e->ssl, mx_pick_skeys(cfg), cfg->clientAuth ? (cfg->strictCb ? mx_cert_cb_strict : mx_cert_cb_accept) : NULL, &so));
+    if (rc < 0) { e->ssl = NULL; return -1; }
+    e = &k->c; e->role = MX_CLIENT; e->ver = cfg->ver; e->id = 0; e->name = "C"; e->sid = sid; mx_actor = 0;
+    tlsExtension_t *ext = NULL;
+    if (s->ext) {
+        LIB(rc = matrixSslNewHelloExtension(&ext, NULL)); if (rc < 0) return -2;
+        if (s->ext & 1) { unsigned char *sni = NULL; int32 snilen = 0;
+            LIB(rc = matrixSslCreateSNIext(NULL, (unsigned char *) name, (int32) strlen(name), &sni, &snilen));
+            if (rc >= 0) { LIB(rc = matrixSslLoadHelloExtension(ext, sni, snilen, EXT_SNI)); free(sni); } }
+        if (rc >= 0 && (s->ext & 2)) { unsigned char unk[7] = { 'c', '1', '9', 0, 1, 2, 3 }; LIB(rc = matrixSslLoadHelloExtension(ext, unk, sizeof unk, 0xfc19)); }
+        if (rc >= 0 && (s->ext & 4)) { unsigned char alpn[] = { 0, 12, 2, 'h', '2', 8, 'h', 't', 't', 'p', '/', '1', '.', '1' }; LIB(rc = matrixSslLoadHelloExtension(ext, alpn, sizeof alpn, EXT_ALPN)); }
+        if (rc < 0) { LIB(matrixSslDeleteHelloExtension(ext)); return -2; }
+    }
+    psCipher16_t cs[1] = { cfg->suite };
+    LIB(rc = matrixSslNewClientSession(&e->ssl, mx_pick_ckeys(cfg), sid, cs, 1, cfg->noCallback ? NULL : (cfg->strictCb ? mx_cert_cb_strict : mx_cert_cb_accept), name, ext, NULL, &co));
+    if (ext) LIB(matrixSslDeleteHelloExtension(ext));
+    if (rc < 0) { e->ssl = NULL; return -2; }
+    e->wantTake = 1;
+    return 0;
+}
+
 static void scenario(const scn_t *s, outcome_t *o)
 {
     sslKeys_t *sk = NULL, *ck = NULL; sslSessionId_t *sid = NULL; int rc = 0;
@@ -77,17 +171,21 @@ static void scenario(const scn_t *s, outcome_t *o)
     const char *cca = ca;
     if (s->bad == BAD_UNTRUSTED_CA) cca = ec ? MX_TK "RSA/2048_RSA_CA.pem" : MX_TK "EC/256_EC_CA.pem";
     if (s->bad == BAD_WRONG_KEY) key = ec ? MX_TK "EC/384_EC_KEY.pem" : MX_TK "RSA/3072_RSA_KEY.pem";
+    if (s->pki) { cert = C19_PKI "leaf.pem"; key = C19_PKI "leaf_key.pem"; ca = cca = C19_PKI "ca.pem"; }
     memset(o, 0, sizeof *o);
+    if (s->win) { c19_arm_to = mx_fp_armed; mx_fp_armed = 0; }
     mx_actor = 2;
     LIB(rc = matrixSslNewKeys(&sk, NULL)); if (rc < 0) { sk = NULL; goto out; }
     LIB(rc = matrixSslLoadKeys(sk, cert, key, NULL, s->clientAuth ? ca : NULL, NULL)); if (rc < 0) goto out;
     LIB(rc = matrixSslLoadPsk(sk, mx_psk_key, 16, mx_psk_id, 16)); if (rc < 0) goto out;
+    if (s->pskke) { LIB(rc = matrixSslLoadTls13Psk(sk, c19_psk13, 32, c19_psk13_id, sizeof c19_psk13_id - 1, NULL)); if (rc < 0) goto out; }
     if (s->ticket) { unsigned char tn[16] = "ticket-key-name", tk[32], th[32]; memset(tk, 7, 32); memset(th, 9, 32);
         LIB(rc = matrixSslLoadSessionTicketKeys(sk, tn, tk, 32, th, 32)); if (rc < 0) goto out; }
     o->stage = 1;
     LIB(rc = matrixSslNewKeys(&ck, NULL)); if (rc < 0) { ck = NULL; goto out; }
     if (s->clientAuth) LIB(rc = matrixSslLoadKeys(ck, cert, key, NULL, cca, NULL)); else LIB(rc = matrixSslLoadKeys(ck, NULL, NULL, NULL, cca, NULL));
     if (rc < 0) goto out;
+    if (s->pskke) { LIB(rc = matrixSslLoadTls13Psk(ck, c19_psk13, 32, c19_psk13_id, sizeof c19_psk13_id - 1, NULL)); if (rc < 0) goto out; }
     LIB(rc = matrixSslNewSessionId(&sid, NULL)); if (rc < 0) { sid = NULL; goto out; }
     o->stage = 2;
     for (int round = 0; round < s->rounds; round++) {
@@ -96,14 +194,16 @@ static void scenario(const scn_t *s, outcome_t *o)
         if (s->rotate && round == 1) { unsigned char tn0[16] = "ticket-key-name", tn[16] = "ticket-key-two", tk[32], th[32]; memset(tk, 3, 32); memset(th, 5, 32);
             mx_actor = 2; LIB(rc = matrixSslDeleteSessionTicketKey(sk, tn0)); if (rc < 0) break;
             LIB(rc = matrixSslLoadSessionTicketKeys(sk, tn, tk, 32, th, 32)); if (rc < 0) break; }
+        const char *name = s->bad == BAD_WRONG_NAME ? "not-the-name.example" : (s->bad == BAD_RENAMED && round > 0) ? "other.example.com" : "localhost";
         mx_cfg cfg = { .ver = s->ver, .suite = s->suite, .clientAuth = s->clientAuth, .useTicket = s->ticket, .skeys = sk, .ckeys = ck, .noCallback = 1,
-                       .expectedName = s->bad == BAD_WRONG_NAME ? "not-the-name.example" : "localhost" };
+                       .expectedName = name };
         if (s->clientAuth) cfg.strictCb = 1;
         mx_conn k; memset(&k, 0, sizeof k);
-        int orc = mx_conn_open(&k, &cfg, sid);
+        int orc = c19_open(&k, &cfg, sid, s, name);
         if (orc == 0) {
-            mx_conn_run(&k, NULL, NULL, 300);
-            if (k.c.hsDone || matrixSslHandshakeIsComplete(k.c.ssl)) o->completedC++;
+            if (s->pskke) c19_force_psk_ke(&k);
+            mx_conn_run(&k, (s->win && round == 0) ? c19_cut : NULL, NULL, 300);
+            if (k.c.hsDone || matrixSslHandshakeIsComplete(k.c.ssl)) { o->completedC++; if (round > 0) o->completedC2++; }
             if (k.s.hsDone || matrixSslHandshakeIsComplete(k.s.ssl)) o->completedS++;
             if (mx_conn_established(&k)) {
                 unsigned char p[20000]; int ok = 1;
@@ -118,7 +218,8 @@ static void scenario(const scn_t *s, outcome_t *o)
             }
         }
         mx_conn_close(&k);
-        mx_fp_armed = armed;
+        if (s->rotate) mx_fp_armed = armed;
+        if (s->win && round == 0 && !mx_fp_armed) mx_fp_armed = c19_arm_to;   /* round 0 never completed on the client: arm for the rest anyway */
         if (orc != 0) break;
     }
     o->stage = 3;
@@ -147,7 +248,9 @@ static void child_run(void *a_)
         else if (o.stage < 2) vf_stat("outcome_clean_failure_in_setup", 1);
         else vf_stat("outcome_clean_handshake_failure", 1);
     }
-    if (a->s->bad != BAD_NONE && o.completedC) report("completed-with-verification-skipped", "client reported a completed handshake although the server's credentials must be refused (faults at %ld,%ld)", a->k[0], a->nk > 1 ? a->k[1] : 0);
+    if (a->s->bad != BAD_NONE && forbidden_completion(a->s, &o)) report("completed-with-verification-skipped", a->s->bad == BAD_RENAMED ?
+        "client reported a completed (PSK) handshake for a server name the resumption state was not established for; no certificate was verified for it (faults at %ld,%ld)" :
+        "client reported a completed handshake although the server's credentials must be refused (faults at %ld,%ld)", a->k[0], a->nk > 1 ? a->k[1] : 0);
     MX_ENTER(); matrixSslClose(); MX_LEAVE();
     if (__lsan_do_recoverable_leak_check()) { fflush(NULL); _exit(23); }
 }
@@ -164,16 +267,17 @@ int main(int argc, char **argv)
         /* counting pass (in a child so that process-global state stays pristine): number of allocations and their sites */
         long cap = 400000; uint64_t *sites = mmap(NULL, cap * 8, PROT_READ | PROT_WRITE, MAP_SHARED | MAP_ANONYMOUS, -1, 0); long *shared = mmap(NULL, 64, PROT_READ | PROT_WRITE, MAP_SHARED | MAP_ANONYMOUS, -1, 0);
         pid_t pid = fork();
-        if (pid == 0) { outcome_t o; mx_fp_sites = sites; mx_fp_sites_cap = cap; mx_fp_count = 0; for (int i = 0; i < 4; i++) mx_fp_failat[i] = -1; mx_fp_armed = 1; scenario(s, &o); mx_fp_armed = 0; shared[0] = mx_fp_count; shared[1] = o.completedC && o.completedS && o.dataOk; shared[2] = o.completedC; _exit(0); }
+        if (pid == 0) { outcome_t o; mx_fp_sites = sites; mx_fp_sites_cap = cap; mx_fp_count = 0; for (int i = 0; i < 4; i++) mx_fp_failat[i] = -1; mx_fp_armed = 1; scenario(s, &o); mx_fp_armed = 0; shared[0] = mx_fp_count; shared[1] = o.completedC && o.completedS && o.dataOk; shared[2] = forbidden_completion(s, &o); shared[3] = o.completedC; _exit(0); }
         int st; waitpid(pid, &st, 0);
         long N = shared[0];
         if (!(WIFEXITED(st) && WEXITSTATUS(st) == 0) || N <= 0) { vf_incon("counting pass failed for %s", s->name); continue; }
         if (s->bad == BAD_NONE && !shared[1]) { vf_incon("fault-free run of good scenario %s does not complete", s->name); continue; }
+        if (s->bad == BAD_RENAMED && !shared[3]) { vf_incon("fault-free run of %s: the first (good) connection does not complete", s->name); continue; }
         if (s->bad != BAD_NONE && shared[2]) { snprintf(curdesc, sizeof curdesc, "scn=%s k=0", s->name); report("completed-with-verification-skipped", "client completes WITHOUT any fault"); continue; }
         if (vf_shard == 0) { vf_statf(N, "allocs_%s", s->name); vf_stat("scenarios", 1); }
         /* choose the failure points */
         char *pick = calloc(N + 2, 1); long npick = 0;
-        if (vf_thorough) { for (long k = 1; k <= N; k++) pick[k] = 1; }
+        if (vf_thorough || s->win) { for (long k = 1; k <= N; k++) pick[k] = 1; }
         else {
             /* first occurrence of every distinct allocation site + seeded extras */
             uint64_t *seen = calloc(65536, 8); long nsites = 0;
